@@ -195,8 +195,36 @@ def check_property(pid, tier, seed, shared=None):
     with open(os.path.join(EVID, pid + '.json'), 'w') as f:
         json.dump(ev, f, indent=1)
 
+    # bounded stand-ins on the real code (labelled bounded, never counted in obligations/discharged)
+    bounded_viol = None
+    if pid == 'C09':
+        from . import bounded
+        b = bounded.backup_bounded()
+        ev['coverage']['bounded'] = {'what': 'libxcp::backup::{is_num_backup, next_backup_num, has_backup, get_backup_path} (string/regex/ReadDir code outside Verus)',
+                                     'label': 'bounded - exhaustive over the stated finite space only, not a proof', **{k: b[k] for k in ('ok', 'cases', 'bound', 'failures', 'wall_s')}}
+        if not b['built']:
+            print('UNDECIDED: bounded check of backup.rs did not build/run: %s' % b['tail'][-300:])
+            return 2
+        if not b['ok']:
+            bounded_viol = b
+            ev['violations'] = ev.get('violations', 0) + 1
+        with open(os.path.join(EVID, pid + '.json'), 'w') as f:
+            json.dump(ev, f, indent=1)
+
     for oid, k in known_hit:
         print('KNOWN-FINDING: property=%s obligation=%s %s' % (pid, oid, k.get('what', '')))
+    if bounded_viol:
+        os.makedirs(REPLAYS, exist_ok=True)
+        rp = os.path.join(REPLAYS, '%s-bounded_backup.json' % pid)
+        with open(rp, 'w') as f:
+            json.dump({'property': pid, 'obligation': 'bounded:libxcp::backup (numbered backup recognition / next number)', 'kind': 'bounded',
+                       'clause': 'for every name and set of existing backup numbers in the stated space: backups are recognised, the next number exceeds every existing one, the chosen backup path does not exist',
+                       'contract': 'vx/bounded.py', 'function': 'libxcp::backup', 'repo_source': 'libxcp/src/backup.rs',
+                       'verifier': 'native enumeration on the real code (cargo test on a scratch copy)', 'verifier_output': [],
+                       'counterexample': {'failing_inputs': bounded_viol['failures']}, 'how_to_replay': './check replay %s' % rp}, f, indent=1)
+        print('VIOLATION property=%s replay=%s' % (pid, rp))
+        if not violations:
+            return 1
     if violations:
         os.makedirs(REPLAYS, exist_ok=True)
         for oid, diags in violations:
@@ -280,6 +308,12 @@ def cmd_replay(args):
     print('function   :', r['function'], '(', r.get('repo_source'), ')')
     for d in r['verifier_output']:
         print('verus      :', d['message'], '| at repo line', d.get('site_line'), '|', d.get('site_text'))
+    if r.get('kind') == 'bounded':
+        print('counterexample (failing inputs at the time):', json.dumps(r['counterexample'], indent=1))
+        from . import bounded
+        b = bounded.backup_bounded()
+        print('re-run on the current tree:', 'no failing input' if b['ok'] else json.dumps(b['failures'], indent=1))
+        return 0 if b['ok'] else 1
     if r.get('counterexample'):
         print('counterexample:', json.dumps(r['counterexample'], indent=1))
         from . import search
